@@ -118,6 +118,7 @@ class DispatchModel:
         self.event_hold = set()         # objects inside an update() naming an Event parameter
         self.exec_id = 0                # id of the callback execution in progress (0 = top level)
         self.exec_counter = 0
+        self.nested_in_trigger = 0      # assignments made by callbacks while a trigger of the same object is dispatching
 
     # -- registration -----------------------------------------------------------------
     def add_obj(self, oid, values, event_params=()):
@@ -162,10 +163,10 @@ class DispatchModel:
         o.values[name] = value
         ev = MEvent('value', name, old, value, o.trigger)
         ev.tdef = o.trigger and o.trig_deferred
-        if o.trig_outer and not o.trigger and o.batch:
-            # an ordinary assignment made by a callback of param.trigger and deferred: it is ordinary (filtered as such), the
-            # type it is reported with when the trigger's own flush delivers it is left open
-            ev.type_dc = True
+        if o.trigger and self.depth and o.watchers.get((name, 'value')):
+            # known finding: an assignment made by a callback while param.trigger is dispatching counts as triggered itself
+            # (changes-only filtering bypassed, type 'triggered'); the model follows the library from here on
+            self.nested_in_trigger += 1
         self._dispatch(o, ev, sort=True)
         if name in o.event_params and oid not in self.event_hold:
             o.values[name] = False       # Event parameters reset themselves, silently
@@ -208,11 +209,6 @@ class DispatchModel:
     def _execute(self, o, w, events, optional):
         saved = o.batch
         o.batch = bool(w.queued) or o.batch
-        # what the callback itself assigns is an ordinary assignment, also when it runs on behalf of param.trigger
-        saved_trig = (o.trigger, o.trig_deferred)
-        if o.trigger:
-            o.trig_outer += 1
-        o.trigger, o.trig_deferred = False, False
         self.depth += 1
         saved_id = self.exec_id
         self.exec_counter += 1
@@ -223,9 +219,6 @@ class DispatchModel:
             self.exec_id = saved_id
             self.depth -= 1
             o.batch = saved
-            o.trigger, o.trig_deferred = saved_trig
-            if saved_trig[0]:
-                o.trig_outer -= 1
             self.host.on_exit(w)
 
     def flush(self, o):
